@@ -92,4 +92,18 @@ var specs = []CheckSpec{
 		Assumptions: append([]string{"validity of generated files and the expected import list are cross-checked against go/parser (ImportsOnly) on every natively replayed path witness"}, commonAssumptions...),
 		Outside:     []string{"more than two simultaneously varying separators", "files whose import section is longer than the skeletons", "bufio buffer refills (inputs are far below 4096 bytes)"},
 	},
+	{
+		ID: "C02", Pkg: "testscript",
+		Harnesses: []HarnessSpec{
+			{Fn: "VerifC02Split", Quick: map[string]int{"N": 6}, Thorough: map[string]int{"N": 8}, Witness: []string{"parsed", "two-words", "unterminated"}, Native: true},
+			{Fn: "VerifC02QuoteLaw", Quick: map[string]int{"K": 2, "W": 3}, Thorough: map[string]int{"K": 3, "W": 3}, Witness: []string{"quoted-parse"}, Native: true},
+			{Fn: "VerifC02Expand", Quick: map[string]int{"H": 2, "VL": 2}, Thorough: map[string]int{"H": 3, "VL": 2}, Witness: []string{"expanded", "reassigned"}, Native: true},
+		},
+		Bounds: map[string]string{
+			"quick":    "all lines of <= 6 bytes without '$' or newline against a reference tokenizer; all lists of <= 2 words of <= 3 arbitrary bytes (no newline) quoted and re-parsed; all histories of <= 2 assignments (via Setenv or the env builtin) to {A,B,AB} with values of <= 2 arbitrary bytes, six reference forms ($K, ${K}, x$K/y, ${K}B, ${K@R}, '$K'$K)",
+			"thorough": "lines <= 8 bytes; <= 3 words; <= 3 assignments",
+		},
+		Assumptions: append([]string{"${K@R}: 'matches exactly' is reduced to the contract of regexp.QuoteMeta (every metacharacter escaped), interpreted from its SSA; the regexp engine itself is not encoded", "programs see ts.env with os/exec's documented last-entry-wins rule"}, commonAssumptions...),
+		Outside:     []string{"Windows case folding of variable names", "malformed references such as ${ or $ at end of word (os.Expand's documented behaviour)", "the regexp matcher"},
+	},
 }
